@@ -221,7 +221,7 @@ class L2Gen:
         if x < 0.75 and self.top_names:
             self.features.add("attr")
             pool = self.created_before if (self.created_before and r.random() < self.valid_bias) else self.top_names
-            return ["attr", ["name", r.choice(pool)], r.choice(["id", "id", "f1", "f2"])]
+            return ["attr", ["name", r.choice(pool)], r.choice(["id", "id", "f1", "f2", "f3", "__h", "__h"])]
         return [r.choice(["add", "add", "sub", "mul"]), self.expr(d - 1, fields_so_far), self.expr(d - 1, fields_so_far)]
 
     def count_expr(self):
